@@ -161,5 +161,27 @@ def check(ctx):
     new_push = [s for s in pf if s.bb not in ea.reachable(lib.bbs(ea.call_sites(r"Vec::remove$")))]
     ctx.ob("capacity", "capacity test follows the insert of a new address", len(new_push) == 1 and len(tests) == 1 and
            ea.must_pass_nodes(ea.succ[new_push[0].bb], ea.return_blocks(), tests), new_push[0].loc() if new_push else "", "every path after inserting a new address tests len > MAX")
+    # most-recent-first order: `addresses` is only ever mutated by front insertion, positional removal and pop
+    allowed = {"std::vec::Vec::insert", "std::vec::Vec::remove", "std::vec::Vec::pop"}
+    muts = []
+    for b in prog.bodies(SW):
+        if "external_addresses::ExternalAddresses" in b.npath and b.kind != "closure":
+            for s in lib.field_mut_calls(b, "addresses"):
+                muts.append((b, s, mir.strip_generics(b.call_name(s.term))))
+    ctx.floor("order", "mutations of ExternalAddresses.addresses", muts, 4)
+    for b, s, name in muts:
+        ctx.ob("order", "addresses mutated only by front-insert / remove / pop", name in allowed, s.loc(), "&mut self.addresses passed to %s" % name)
+        if name == "std::vec::Vec::insert":
+            e = b.site_expr(s)
+            ctx.ob("order", "insertion is at the front", e[2][1][0] == "const" and e[2][1][1] == 0, s.loc(), "Vec::insert index = %s" % render(e[2][1]))
+    # refresh of a known address: removed at its position and re-inserted at the front, exactly once each
+    pos_some = lib.switch_edges_on(ea, r"^discr\(<std::slice::Iter as std::iter::Iterator>::position\(", {"Some"})
+    conf = [(b_, t_) for (b_, t_) in pos_some if t_ in ea.reachable([x for _, x in lib.arm_entry(ea, r"^discr\(event\)$", "ExternalAddrConfirmed")])]
+    ctx.ob("order", "floor:refresh edge", len(conf) >= 1, nontrivial=False, msg=str(conf))
+    rm = lib.bbs(ea.call_sites(r"Vec::remove$"))
+    for _, t_ in conf[:1]:
+        got_r = lib.count_range(ea, [t_], ea.return_blocks(), rm)
+        got_p = lib.count_range(ea, [t_], ea.return_blocks(), lib.bbs(pf))
+        ctx.ob("order", "refresh = remove(pos) + push_front", got_r == (1, 1) and got_p == (1, 1), msg="on the known-address edge: remove %s, push_front %s" % (got_r, got_p))
     mx = prog.const(SW, r"external_addresses::MAX_LOCAL_EXTERNAL_ADDRS$")
     ctx.ob("capacity", "MAX_LOCAL_EXTERNAL_ADDRS evaluated", isinstance(mx.get("v"), int) and mx["v"] > 0, msg="MAX_LOCAL_EXTERNAL_ADDRS = %s" % mx.get("v"))
